@@ -142,6 +142,7 @@ impl Check for C01 {
                         rep.violate("O-total", format!("admin-{}", p.key()), ei, format!("configuration call {:?} panicked: {} at {}", op, p.msg, p.loc));
                     }
                 }
+                Op::Checkpoint { .. } => {}
                 Op::SessionNew { lang } => {
                     if w.sessions.contains_key(&ev.actor) { rep.count("session.drop_recreate"); }
                     w.session_new(ev.actor, lang);
@@ -234,5 +235,6 @@ fn dst_class(line: &str, date: (i64, u32, u32), env: &Env) -> Option<&'static st
     let (h, m) = hm.split_once(':')?;
     let h: i64 = h.parse().ok()?;
     let m: i64 = m.get(..2)?.parse().ok()?;
+    if !(0..24).contains(&h) || !(0..60).contains(&m) { return None; }
     match classify_wall(date, h * 3600 + m * 60, &env.host_rule) { "gap" => Some("tz.dst_gap"), "fold" => Some("tz.dst_fold"), _ => None }
 }
